@@ -527,7 +527,25 @@ def predictors(ctx, f):
     ok = astq.text(coefloop.iter) == "range(nlpc)" and len(coefloop.body) == 1 and astq.eq_text(coefloop.body[0], "qlpc[i]=var_get(LPCQUANT)")
     ctx.check(ok, R, f, coefloop, "nlpc quantised coefficients are read with LPCQUANT bits each", "QLPC coefficient loop is %s" % astq.text(coefloop))
     inner = [s for s in samp.body if isinstance(s, ast.For)]
-    ctx.need(len(inner) == 1, R, "QLPC inner prediction loop not found")
+    if len(inner) != 1:
+        # vectorised prediction: an inner product of coefficient and history slices - both must span exactly the block's own nlpc taps
+        prods = [x for x in ast.walk(samp) if (isinstance(x, ast.BinOp) and isinstance(x.op, ast.MatMult)) or
+                 (isinstance(x, ast.Call) and (prog.qualify(f.module, x.func, f) or "") in ("numpy.dot", "numpy.inner", "numpy.vdot"))]
+        ctx.need(len(prods) == 1, R, "QLPC inner prediction loop not found")
+        pr = prods[0]
+        ops = [pr.left, pr.right] if isinstance(pr, ast.BinOp) else list(pr.args[:2])
+        hist = [o for o in ops if isinstance(o, ast.Subscript) and astq.base_name(o) == "cbuffer" and isinstance(o.slice, ast.Slice)]
+        ctx.need(len(hist) == 1 and hist[0].slice.lower is not None and hist[0].slice.upper is not None, R, "history slice of the vectorised QLPC prediction not recognised")
+        evv = SymEval(prog, f)
+        evv.env = {}
+        width = S.sub(evv.expr(hist[0].slice.upper), evv.expr(hist[0].slice.lower))
+        r_ = S.compare(width, S.sym("nlpc"), domain={})
+        if r_["verdict"] != "equal":
+            ctx.bad(R, f, samp, "the QLPC prediction is an inner product over %s history samples, not over the block's own nlpc: coefficients left in the table by "
+                    "an earlier block of higher order (on any channel) act as extra taps whenever a later block uses a lower order" % S.show(width)[:60],
+                    "QLPC prediction is lpcqoffset + sum_j qlpc[j] * x[i-j-1] over j < nlpc")
+            return
+        raise AnalysisError("%s: vectorised QLPC prediction over nlpc taps: tap order not modelled" % R)
     evq = cc.body_eval(prog, f, samp.body)
     s_val = evq.env.get("sum")
     j = S.sym("@elem")
